@@ -1,7 +1,7 @@
 """Checks of concurrency (C04), life cycle (C17) and background policy (C18).
    1. TLC checks BitcaskConc.tla (writer with multi-call appends / readers with per-object
       mappings and the shard guard / merger: NoPanic, GetLinearizable, PoolConserved, and the
-      liveness property OpsTerminate) and Lifecycle.tla (explicit clock: PolicyNever,
+      liveness property OpsTerminate) and Lifecycle.tla (explicit clock, one action per await point: PolicyNever,
       NoSpuriousMerge, TriggeredMergeDeadline, IntervalSync, ClosedRejects, and
       BgExitsWithoutTimer with fairness on the shutdown wake-up only);
    2. sysdrive runs the scenarios on the real store: forced schedules through the shim and the
@@ -40,9 +40,13 @@ CONSTANTS
   I = {i}
   J = {j}
   S = {s}
-  MergeTime = 1
+  Day = 6
+  WinFrom = 2
+  WinTo = 3
   MaxTime = {maxtime}
-INVARIANTS PolicyNever NoSpuriousMerge TriggeredMergeDeadline IntervalSync ClosedRejects
+  DevNoClosedCheck = {dev1}
+  DevTaskEndsOnError = {dev2}
+INVARIANTS TypeOK PolicyNever NoSpuriousMerge TasksAlive TriggeredMergeDeadline IntervalSync ClosedRejects NoWorkStartsAfterClose PromptExit
 PROPERTY BgExitsWithoutTimer
 CHECK_DEADLOCK FALSE
 """
@@ -69,13 +73,22 @@ def model_check(v, prop, tier):
             if not r.ok:
                 raise ToolError(f"BitcaskConc.tla violates {r.violated or r.eval_error}\n{r.out[-2500:]}")
     else:
-        insts = [("always", 3, 1, 2), ("always", 2, 0, 3), ("never", 3, 1, 2), ("always", 4, 2, 0)]
+        insts = [("always", 3, 1, 2), ("always", 2, 0, 3), ("never", 3, 1, 2), ("always", 4, 2, 0), ("window", 2, 0, 0), ("window", 2, 1, 2)]
         for pol, i, j, s in insts:
-            cfg = write_cfg(f"life_{os.getpid()}_{pol}{i}{j}{s}.cfg", LIFE_CFG.format(policy=pol, i=i, j=j, s=s, maxtime=10 if q else 14))
+            cfg = write_cfg(f"life_{os.getpid()}_{pol}{i}{j}{s}.cfg", LIFE_CFG.format(policy=pol, i=i, j=j, s=s, maxtime=10 if q else 14,
+                                                                                     dev1="FALSE", dev2="FALSE"))
             r = tlc("Lifecycle.tla", cfg, workers=4, timeout=1200, metatag=f"life-{os.getpid()}-{pol}{i}{j}{s}")
             v.add_tlc(f"Lifecycle.tla policy={pol} I={i} J={j} S={s}", r)
             if not r.ok:
                 raise ToolError(f"Lifecycle.tla violates {r.violated or r.eval_error}\n{r.out[-2500:]}")
+        # the invariants are not vacuous: the model with a deviation switched on violates the one that names it
+        for pol, d1, d2, inv in (("always", "TRUE", "FALSE", "NoWorkStartsAfterClose"), ("window", "TRUE", "FALSE", "NoWorkStartsAfterClose"),
+                                 ("always", "FALSE", "TRUE", "TasksAlive")):
+            cfg = write_cfg(f"life_{os.getpid()}_dev{pol}{d1}{d2}.cfg", LIFE_CFG.format(policy=pol, i=2, j=0, s=0, maxtime=8, dev1=d1, dev2=d2))
+            r = tlc("Lifecycle.tla", cfg, workers=1, timeout=600, metatag=f"life-{os.getpid()}-dev{pol}{d1}{d2}")
+            if r.violated != inv:
+                raise ToolError(f"Lifecycle.tla with deviation ({pol}, {d1}, {d2}) should violate {inv}, got {r.violated or 'no violation'}")
+            v.cov.setdefault("deviations_rejected_by_the_model", []).append(f"policy={pol} DevNoClosedCheck={d1} DevTaskEndsOnError={d2} -> {inv}")
 
 
 GENCONC_CFG = """SPECIFICATION GSpec
